@@ -11,6 +11,7 @@
     replace  <cname> ...                           callees replaced by their contracts in this proof
     flags    <extra cbmc flags>
     level    L1|L2|L3
+    bound    <K>                                   BOUNDED STAND-IN: the function's own loops are unwound (K iterations, unwinding assertions on); never counted as proved
     noexcept_doc <C expression>                    documented noexcept condition; compared with the compiler-evaluated specification (C18)
     harness
       <C statements>
@@ -31,6 +32,7 @@ class FnSpec:
         self.replace = []; self.flags = []; self.level = 'L2'; self.harness = None; self.timeout = None; self.solver = None
         self.cases = []      # [(name, C condition over the harness variables)]
         self.notes = []
+        self.bound = None          # bounded stand-in: loops of this function without a loop contract are unwound bound+1 times with unwinding assertions
         self.noexcept_expr = None  # C++ call expression over E, A, V, VM whose noexcept-ness the compiler evaluates (declared specification)
         self.noexcept_doc = None   # documented noexcept condition (C expression over FACT_* / CFG_* macros)
 
@@ -158,6 +160,8 @@ def parse_file(path):
             cur.cases.append((nm.strip(), cond.strip()))
         elif kw == 'note':
             cur.notes.append(rest)
+        elif kw == 'bound':
+            cur.bound = int(rest)
         elif kw == 'noexcept_doc':
             cur.noexcept_doc = rest.strip()
         elif kw == 'noexcept_expr':
